@@ -1,4 +1,5 @@
 import RpgpProofs.Resource
+import RpgpProofs.CleartextIncr
 /-!
 # C19 — work and memory are bounded by the input actually supplied (PARTIAL)
 
@@ -451,5 +452,29 @@ example : sigCostOf (nestSig 4 5) = ⟨89 + 70 + 51 + 32, false, 4⟩ := by rw [
 example : argon2Admit 1 4 21 = true ∧ argon2Admit 33 1 10 = false ∧ argon2Admit 1 4 4 = false ∧ argon2Admit 1 1 22 = false := by decide
 example : (readFromBuf (fun _ => .incomplete) 10 [[1, 2, 3, 4], [5, 6, 7, 8], [9, 10, 11, 12], [13]]).res = .tooLarge := by decide
 example : (mpiRead 16385 [[1, 2]]).1 = .tooLarge ∧ (mpiRead 16 [[1, 2, 3]]).1 = .ok 2 := by decide
+
+
+/-! ## cleartext signature framework: the search for the signature block (D19c)
+
+Octets looked at by the `rfind` of `read_cleartext_body`, summed over one run of its loop. -/
+
+/-- repaired loop: at most the text once more plus one octet per line — linear in the input -/
+theorem cleartext_search_work_linear (inp : Bytes) :
+    searchWorkIncr [] (splitInclusive inp) ≤ 2 * inp.length := by
+  have h := searchWorkIncr_le (splitInclusive inp) []
+  rw [splitInclusive_flatten] at h
+  have := splitInclusive_length_le inp
+  omega
+
+/-- the loop before the repair: what had been read before the loop continues is looked at again for
+every further line (a product, not a sum) -/
+theorem cleartext_search_work_was_a_product (ls : List Bytes) (out : Bytes) :
+    out.length * ls.length ≤ searchWorkFull out ls :=
+  searchWorkFull_ge ls out
+
+/-- regression witness: 8 lines of 2 octets — 72 octets searched before, 23 after -/
+theorem d19c_witness :
+    searchWorkFull [] (List.replicate 8 [97, 10]) = 72 ∧
+    searchWorkIncr [] (List.replicate 8 [97, 10]) = 23 := by decide
 
 end Rpgp.C19
